@@ -71,6 +71,14 @@ pub struct Server {
 impl Server {
     /// Spawns the RPC server task and returns the server handle.
     pub async fn listen(addr: SocketAddr) -> io::Result<Self> {
+        #[cfg(datacake_verif)]
+        if crate::verif::enabled() {
+            let state = ServerState::default();
+            crate::verif::register(addr, state.clone());
+            let handle = tokio::spawn(std::future::pending::<()>());
+            return Ok(Self { state, handle });
+        }
+
         let state = ServerState::default();
         let handle = crate::net::start_rpc_server(addr, state.clone()).await?;
 
